@@ -6,6 +6,7 @@ import Pike.Driver.Codec
 import Pike.Driver.Resp
 import Pike.Driver.Sched
 import Pike.Driver.Codecs
+import Pike.Driver.Config
 open Pike.Driver
 
 structure St where
@@ -20,6 +21,7 @@ def judgeLine (st : St) (line : String) : St × String :=
   | "race" :: "bad" :: _ => (st, "ok race-bad 1 TRIP wrong_body_for_key")
   | "sched" :: rest => let (d, v) := judgeSched st.sched rest; ({ st with sched := d }, v)
   | "resp" :: rest => let (d, v) := judgeResp st.resp rest; ({ st with resp := d }, v)
+  | "config" :: rest => (st, judgeConfig rest)
   | "codecs" :: rest => (st, judgeCodecs rest)
   | "codec" :: rest => (st, judgeCodec rest)
   | "loc" :: rest => (st, judgeLoc rest)
